@@ -16,7 +16,7 @@ Crs     == {[Blank EXCEPT !.kind = "crs", !.n = n] : n \in (IF Quick THEN {0, 1,
 Precomp == {[Blank EXCEPT !.kind = "precomp", !.w = w, !.val = p, !.val2 = s, !.rep = r] :
               w \in {1, 2, 4, 8}, p \in (IF Quick THEN {"gen", "srs255", "idtors", "yhalf"} ELSE Pts), s \in Scal, r \in Reps(1, 4)}
            \cup {[Blank EXCEPT !.kind = "precomp", !.w = 16, !.val = "srs0", !.val2 = s, !.rep = r] : s \in Scal, r \in Reps(1, 4)}
-           \cup {[Blank EXCEPT !.kind = "precomp", !.w = w, !.val = "gen", !.val2 = "rnd1"] : w \in {0, 3, 5, 6, 7, 12, 24}}
+PrecompBad == {[Blank EXCEPT !.kind = "precomp", !.w = w, !.val = "gen", !.val2 = "rnd1"] : w \in {0, 3, 5, 6, 7, 12, 24}}
 Ext     == {[Blank EXCEPT !.kind = "ext", !.val = p, !.val2 = q, !.rep = r] : p \in Pts, q \in Pts, r \in Reps(4, 16)}
 Unsafe  == {[Blank EXCEPT !.kind = "unsafe", !.val = c, !.rep = r] :
               c \in {"valid", "xplusp", "nonsubgroup", "offcurve", "random", "zero", "one", "p-1", "p", "max", "small", "short", "long", "empty", "yhalf", "yhalf64", "ytop"}, r \in Reps(4, 200)}
@@ -32,7 +32,7 @@ FrC15   == {c \in Fr : c.val \in {"lex", "cmp", "bigint"}}
 Cases == IF Part = "c05" THEN Crs \cup Precomp \cup Ext
          ELSE IF Part = "c10" THEN ProofEq
          ELSE IF Part = "c15" THEN FrC15
-         ELSE Powers \cup Crs \cup Precomp \cup Ext \cup Unsafe \cup OnCurve \cup Uncio \cup ProofEq \cup Fr
+         ELSE Powers \cup Crs \cup Precomp \cup PrecompBad \cup Ext \cup Unsafe \cup OnCurve \cup Uncio \cup ProofEq \cup Fr
 VARIABLE done
 Init == done = FALSE
 Next == ~done /\ done' = ndJsonSerialize(Out, SetToSeq(Cases))
